@@ -115,6 +115,19 @@ def template(tid):
         v[...] = _tok((4, 3), 500, 'f')
         f.setCoords(['time', 'lev'])
         f.title = 'times'
+    elif tid == 'T6':
+        # non-finite data (isolation checks of mask(invalid=True) and friends)
+        f.createDimension('t', 2).setunlimited(True)
+        f.createDimension('x', 3)
+        v = f.createVariable('V', 'f', ('t', 'x'), fill_value=-999.)
+        v[...] = np.ma.masked_array([[1, np.nan, 3], [np.inf, 5, 6]],
+                                    mask=[[0, 0, 1], [0, 0, 0]])
+        v.units = 'u'
+        v = f.createVariable('U', 'd', ('t', 'x'))
+        v[...] = [[np.nan, 2, 3], [4, 5, -np.inf]]
+        v = f.createVariable('x', 'd', ('x',))
+        v[...] = [1, 2, 3]
+        f.setCoords(['x'])
     elif tid == 'M1':
         # the template of the bounded model spec/PncCore_MC.tla (M1)
         f.createDimension('t', 2).setunlimited(True)
@@ -255,9 +268,10 @@ def call(objs, st, tmp):
             repr(f)
         elif q == 'dump':
             import io
-            import contextlib
-            with contextlib.redirect_stdout(io.StringIO()):
-                f.dump()
+            # (pncdump binds sys.stdout at import time and its exception
+            # handler closes the output file and calls exit(): give it a
+            # buffer of its own)
+            f.dump(outfile=io.StringIO())
         elif q == 'getTimes':
             f.getTimes()
         elif q == 'getTimesBounds':
@@ -312,7 +326,8 @@ def execute(arg):
                     objs.append(new)
                     last.append(None)
                     rec['new'] = len(objs)
-            except Exception as ex:
+            except (Exception, SystemExit) as ex:
+                # (pncdump's exception handler calls exit())
                 rec['res'] = 'raised'
                 rec['exc'] = '%s: %s' % (type(ex).__name__, str(ex)[:120])
             post = []
@@ -570,7 +585,7 @@ def gen_program(rnd, depth, focus=None, isolation=False, templates=None):
                         call(objs, w, tmp)
                         steps.append(w)
                         continue
-            except Exception:
+            except (Exception, SystemExit):
                 pass
             steps.append({k: v for k, v in st.items() if k != '_n'})
     finally:
@@ -632,8 +647,17 @@ def run_isolation(out, tier):
     file it was derived from."""
     rnd = random.Random(seed() * 7919 + 5)
     n = 500 if tier == 'quick' else 5000
-    progs = [gen_program(rnd, rnd.choice([2, 3, 4]), isolation=True)
+    progs = [gen_program(rnd, rnd.choice([2, 3, 4]), isolation=True,
+                         templates=TEMPLATES + ['T6'])
              for _ in range(n)]
+    # mask(invalid=True) in a share of the mask steps (outside the value
+    # model; the isolation clause does not need the expected result)
+    for p in progs:
+        for st in p['steps']:
+            if st['act'] == 'mask' and rnd.random() < 0.5:
+                st['args']['p'] = [q for q in st['args']['p']
+                                   if rnd.random() < 0.3] + \
+                    [{'k': 'invalid', 'v': True}]
     run_programs(out, progs, {'iso'}, 'C05-heap', prop='-')
 
 
